@@ -42,8 +42,8 @@ static cJSON *vf_stub_duplicate(const cJSON *item, cJSON_bool recurse)
 #include VF_LIB
 #undef cJSON_Duplicate
 
-static cJSON root, P, scalar; static cJSON *kidp[KN]; static unsigned char kkey[KN]; static unsigned n;
-static unsigned gp_calls; static char gp_text[4][PL + 2]; static cJSON *gp_ret[4];
+static cJSON root, scalar, P; static int pkx; static unsigned gp_calls; static cJSON *gp_ret[4]; static cJSON *kidp[KN]; static unsigned char kkey[KN]; static unsigned n;
+static char gp_text[4][PL + 2];
 static cJSON *get_item_from_pointer(cJSON * const object, const char *pointer, const cJSON_bool case_sensitive)
 {
     unsigned k = gp_calls, i; cJSON *r = 0;
@@ -96,16 +96,37 @@ static int index_token(const unsigned char *t, unsigned *idx)
 /* members carry 1-byte keys (or the empty key when the byte is 0): a token matches iff it is that same string */
 static int find_member(const unsigned char *t) { unsigned i; for (i = 0; i < n; i++) if (kkey[i] == t[0] && (t[0] == 0 || t[1] == 0)) return (int)i; return -1; }
 
+
+/* ---- list model of P's children: node pointers and their keys */
+static cJSON *xp[KN + 3]; static unsigned char ekey[KN + 3][PL + 2]; static unsigned nexp;
+static int spec_find(const unsigned char *t) { unsigned i; for (i = 0; i < nexp; i++) if (strcmp((const char *)ekey[i], (const char *)t) == 0) return (int)i; return -1; }
+static void spec_remove_at(unsigned k) { unsigned i; for (i = k; i + 1 < nexp; i++) { xp[i] = xp[i + 1]; memcpy(ekey[i], ekey[i + 1], PL + 2); } nexp--; }
+static void spec_insert_at(unsigned k, cJSON *v, const unsigned char *key) { unsigned i; for (i = nexp; i > k; i--) { xp[i] = xp[i - 1]; memcpy(ekey[i], ekey[i - 1], PL + 2); } xp[k] = v; strcpy((char *)ekey[k], (const char *)key); nexp++; }
+/* removal of the value at pointer p: 1 removed (node in *out), 0 refused, -1 outside the conformance claim */
+static int spec_remove(const unsigned char *p, unsigned *ci, cJSON **out)
+{
+    unsigned char t[PL + 2]; size_t pl = 0; unsigned idx = 0; int lt = last_token(p, t, &pl), hit = -1; cJSON *par;
+    if (lt < 0) return -1;
+    if (lt == 0) return 0;                  /* no '/' at all: nothing is resolved, nothing detached */
+    par = *ci < gp_calls ? gp_ret[*ci] : 0; (*ci)++;
+    if (par != &P) return 0;                /* parent missing, a scalar, or a container without the member (root / leaf have no children here) */
+    if (pkx == cJSON_Array) { if (index_token(t, &idx) && idx < nexp) hit = (int)idx; }
+    else if (pkx == cJSON_Object) hit = spec_find(t);
+    if (hit < 0) return 0;
+    *out = xp[hit]; spec_remove_at((unsigned)hit);
+    return 1;
+}
+
 int main(VF_MAIN_ARGS)
 {
     cJSON_Hooks h; int status; unsigned i, cnt; cJSON *c, *last; long live0; static char pathbuf[PL + 1], frombuf[PL + 1], optxt[8]; cJSON *valnode = 0;
-    int pk; cJSON *exp[KN + 2]; unsigned nexp = 0; int want_ok = -1 /* -1: not specified */; unsigned char tok[PL + 2]; size_t plen = 0; int lt;
+    int pk; unsigned char tok[PL + 2]; size_t plen = 0; int lt;
     VF_INIT();
     h.malloc_fn = vf_malloc; h.free_fn = vf_free; cJSON_InitHooks(&h);
     memset(&root, 0, sizeof root); memset(&P, 0, sizeof P); memset(&scalar, 0, sizeof scalar);
     root.type = cJSON_Object; scalar.type = cJSON_Number;
     pk = (IN.pkind % 3 == 0) ? cJSON_Array : (IN.pkind % 3 == 1) ? cJSON_Object : cJSON_String;
-    P.type = pk; n = (pk == cJSON_String) ? 0 : IN.n % (KN + 1);
+    P.type = pk; pkx = pk; n = (pk == cJSON_String) ? 0 : IN.n % (KN + 1);
     /* children of P are heap nodes (they may be deleted by the operation) */
     {
         cJSON *prev = 0;
@@ -113,7 +134,7 @@ int main(VF_MAIN_ARGS)
             cJSON *k = (cJSON *)vf_own(sizeof(cJSON)); char *ks = (char *)vf_own(2);
             memset(k, 0, sizeof *k); k->type = cJSON_True; memcpy(ks, IN.key[i], 1); ks[1] = 0; kkey[i] = IN.key[i][0]; k->string = ks; kidp[i] = k;
             if (prev) { prev->next = k; k->prev = prev; } else P.child = k;
-            prev = k; exp[i] = k;
+            prev = k; xp[i] = k; ekey[i][0] = IN.key[i][0]; ekey[i][1] = 0;
         }
         if (n) P.child->prev = prev;
         if (n == 2 && pk == cJSON_Object) VF_ASSUME(IN.key[0][0] != IN.key[1][0]);
@@ -141,70 +162,71 @@ int main(VF_MAIN_ARGS)
 
     status = apply_patch(&root, &op, 1);
 
-    /* ---------------- specification */
+    /* ---------------- specification: RFC 6902 section 4, relative to what the resolver stub returned */
     {
         int has_op = (IN.has & 1) && !(IN.opkind & 1), has_path = (IN.has & 2) && !(IN.pathkind & 1), has_value = (IN.has & 4) != 0, has_from = (IN.has & 8) && !(IN.fromkind & 1);
-        int injected = (vf_fail_at != 0 && vf_nreq >= vf_fail_at);
-        (void)has_from; (void)valnode;
-        if (!has_path || !has_op || OPC == 0) { want_ok = 0; }
-        else if (OPC == 6) { want_ok = (gp_calls >= 1 && gp_ret[0] != 0 && has_value && (IN.cmp & 1)) ? 1 : 0; VF_AP(16, cmp_calls == 1 && cmp_a == gp_ret[0] && (cmp_b == (has_value ? &m_value : 0)), "C16 test compares the value at path with the \"value\" member"); VF_AP(16, strcmp(gp_text[0], pathbuf) == 0, "C16 test resolves exactly the given path"); }
+        int ok = 1, defined = 1, doc_defined = 1; unsigned ci = 0; cJSON *value = 0;
+        if (!has_path || !has_op || OPC == 0) ok = 0;
+        else if (OPC == 6) {
+            ok = (gp_calls >= 1 && gp_ret[0] != 0 && has_value && (IN.cmp & 1)) ? 1 : 0;
+            VF_AP(16, cmp_calls == 1 && cmp_a == gp_ret[0] && (cmp_b == (has_value ? &m_value : 0)), "C16 test compares the value at path with the \"value\" member");
+            VF_AP(16, strcmp(gp_text[0], pathbuf) == 0, "C16 test resolves exactly the given path");
+        }
         else if (pathbuf[0] == 0) {
-            if (OPC == 2) want_ok = -1;                                  /* remove of the whole document: left open by the property */
-            else if (OPC == 1 || OPC == 3) want_ok = (has_value && (IN.dup_ok & 1) && !injected) ? 1 : (injected ? -1 : 0);
-            else want_ok = -1;                                           /* move/copy to the root: decided in the cases below only for failure */
-            if ((OPC == 1 || OPC == 3) && status == 0) { VF_AP(16, dup_calls == 1 && dup_arg == &m_value && root.valueint == 777 && root.string == 0 && root.type == (m_value.type & 0xFF), "C16 add/replace at \"\" replaces the whole document by a copy of the value"); }
+            doc_defined = 0;
+            if (OPC == 2) defined = 0;                                   /* remove of the whole document: left open by the property */
+            else if (OPC == 1 || OPC == 3) {
+                ok = (has_value && (IN.dup_ok & 1)) ? 1 : 0;
+                if (status == 0) VF_AP(16, dup_calls == 1 && dup_arg == &m_value && root.valueint == 777 && root.string == 0 && root.type == (m_value.type & 0xFF), "C16 add/replace at \"\" replaces the whole document by a copy of the value");
+            } else if (!has_from) ok = 0; else defined = 0;              /* move/copy to "": status decided by the from lookup, document replaced (not modelled here) */
         }
-        else if (OPC == 2 || OPC == 3) {
-            /* removal part: parent of path resolved by the stub (first call), token decides the child */
-            lt = last_token((unsigned char *)pathbuf, tok, &plen);
-            if (lt == 1 && gp_calls >= 1) {
-                unsigned idx = 0; int hit = -1; cJSON *par = gp_ret[0];
-                if (par == &P && pk == cJSON_Array) { if (index_token(tok, &idx) && idx < n) hit = (int)idx; }
-                else if (par == &P && pk == cJSON_Object) hit = find_member(tok);
-                else if (par == &root) hit = -2;                           /* root has no members in this unit: nothing to detach */
-                if (par == &P && (pk == cJSON_Array || pk == cJSON_Object)) {
-                    if (hit >= 0) { unsigned k2; nexp = 0; for (k2 = 0; k2 < n; k2++) if ((int)k2 != hit) exp[nexp++] = exp[k2]; if (OPC == 2) want_ok = injected ? -1 : 1; }
-                    else want_ok = 0;
-                    VF_AP(16, strncmp(gp_text[0], pathbuf, plen) == 0 && gp_text[0][plen] == 0, "C16 remove/replace resolve the parent pointer (path without its last token)");
-                } else if (par != &root) want_ok = 0;                      /* parent missing or not a container */
-            } else if (lt == 0) want_ok = 0;
-        }
-        if ((OPC == 4 || OPC == 5) && has_path && has_op && want_ok != 0) { if (!has_from) want_ok = 0; }
-        if (OPC == 1 && has_path && has_op && pathbuf[0] != 0 && !has_value) want_ok = 0;
-        if ((OPC == 1 || OPC == 3) && has_path && has_op && pathbuf[0] != 0 && has_value && !(IN.dup_ok & 1)) want_ok = 0;
-        /* insertion part for add (and for replace/move/copy when they get that far): the LAST resolver call is the parent lookup */
-        if (OPC == 1 && has_path && has_op && pathbuf[0] != 0 && has_value && (IN.dup_ok & 1) && !injected) {
-            lt = last_token((unsigned char *)pathbuf, tok, &plen);
-            if (lt == 0) want_ok = 0;
-            else if (lt == 1 && gp_calls == 1) {
-                cJSON *par = gp_ret[0]; unsigned idx = 0;
-                VF_AP(16, strncmp(gp_text[0], pathbuf, plen) == 0 && gp_text[0][plen] == 0, "C16 add resolves the parent pointer (path without its last token)");
-                if (par == &P && pk == cJSON_Array) {
-                    if (tok[0] == '-' && tok[1] == 0) { exp[nexp++] = dup_ret; want_ok = 1; }
-                    else if (index_token(tok, &idx) && idx <= n) { unsigned k2; for (k2 = nexp; k2 > idx; k2--) exp[k2] = exp[k2 - 1]; exp[idx] = dup_ret; nexp++; want_ok = 1; }
-                    else want_ok = 0;
-                } else if (par == &P && pk == cJSON_Object) {
-                    int hit = find_member(tok);
-                    if (tok[0] != 0 && tok[1] != 0) want_ok = -1;           /* keys longer than one byte never match the 1-byte members: plain append, not modelled */
-                    else { if (hit >= 0) { unsigned k2, o2 = 0; for (k2 = 0; k2 < n; k2++) if ((int)k2 != hit) exp[o2++] = exp[k2]; nexp = o2; } exp[nexp++] = dup_ret; want_ok = 1; }
-                } else if (par == 0 || par == &scalar || (par == &P && pk == cJSON_String)) want_ok = 0;
-                else want_ok = -1;
+        else {
+            if (OPC == 2 || OPC == 3) { int r = spec_remove((unsigned char *)pathbuf, &ci, &value); if (r < 0) defined = 0; else if (!r) ok = 0; value = 0; }
+            if (ok && defined && OPC != 2) {
+                if (OPC == 4 || OPC == 5) {
+                    if (!has_from) ok = 0;
+                    else if (OPC == 4) { int r = spec_remove((unsigned char *)frombuf, &ci, &value); if (r < 0) defined = 0; else if (!r) ok = 0; }
+                    else { cJSON *src = ci < gp_calls ? gp_ret[ci] : 0; if (ci < gp_calls) VF_AP(16, strcmp(gp_text[ci], frombuf) == 0, "C16 copy resolves exactly the \"from\" pointer"); ci++; if (src == 0 || !(IN.dup_ok & 1)) ok = 0; else { value = dup_ret; VF_AP(16, dup_arg == src, "C16 copy duplicates the value found at \"from\""); } }
+                } else { if (!has_value || !(IN.dup_ok & 1)) ok = 0; else { value = dup_ret; VF_AP(16, dup_arg == &m_value, "C16 add/replace duplicate the \"value\" member"); } }
+            }
+            if (ok && defined && OPC != 2) {
+                /* insertion of value at path */
+                lt = last_token((unsigned char *)pathbuf, tok, &plen);
+                if (lt < 0) defined = 0;
+                else if (lt == 0) ok = 0;
+                else {
+                    cJSON *par = ci < gp_calls ? gp_ret[ci] : 0; unsigned idx = 0;
+                    if (ci < gp_calls) VF_AP(16, strncmp(gp_text[ci], pathbuf, plen) == 0 && gp_text[ci][plen] == 0, "C16 the value is inserted below the parent pointer (path without its last token)");
+                    ci++;
+                    if (par == &P && pk == cJSON_Array) {
+                        if (tok[0] == '-' && tok[1] == 0) spec_insert_at(nexp, value, (unsigned char *)"");
+                        else if (index_token(tok, &idx) && idx <= nexp) spec_insert_at(idx, value, (unsigned char *)"");
+                        else ok = 0;
+                    } else if (par == &P && pk == cJSON_Object) {
+                        int hit = spec_find(tok);
+                        if (hit >= 0) spec_remove_at((unsigned)hit);
+                        spec_insert_at(nexp, value, tok);
+                    } else if (par == &root) doc_defined = 0;            /* member added to the root itself: allowed, not modelled */
+                    else ok = 0;                                         /* parent missing or not a container */
+                }
             }
         }
-        if (want_ok == 1) { VF_AP(16, status == 0, "C16 an operation that RFC 6902 evaluation accepts returns 0"); VF_WITNESS("accepted"); }
-        if (want_ok == 0) { VF_AP(16, status != 0, "C16 an invalid or failing operation returns non-zero"); VF_WITNESS("refused"); }
-        if (want_ok == 0 && !(OPC == 3 || OPC == 4)) nexp = n;            /* a refused add/remove/copy/test leaves P as it was */
-        /* ---- the parent container afterwards: well-formed, and equal to the model when the outcome is specified */
+        if (defined && ok) { VF_AP(16, status == 0, "C16 an operation that RFC 6902 evaluation accepts returns 0"); VF_WITNESS("accepted"); }
+        if (defined && !ok) { VF_AP(16, status != 0, "C16 an invalid or failing operation returns non-zero"); VF_WITNESS("refused"); }
+        /* ---- the parent container afterwards: always well-formed; equal to the model when the outcome is specified */
         cnt = 0; last = 0;
         for (c = P.child; c != 0 && cnt <= KN + 1; c = c->next) { if (cnt > 0) VF_AP(16, c->prev == last, "C16 document stays well-formed: backward links mirror forward links"); last = c; cnt++; }
         VF_AP(16, c == 0, "C16 document stays well-formed: chain ends");
         if (P.child) VF_AP(16, P.child->prev == last, "C16 document stays well-formed: the first child's backward link designates the last child");
-        if ((want_ok == 1 && OPC <= 2) || (want_ok == 0 && (OPC == 1 || OPC == 2 || OPC == 5 || OPC == 6))) {
+        if (defined && doc_defined) {
             VF_AP(16, cnt == nexp, "C16 the container holds what RFC 6902 evaluation leaves in it (count)");
-            cnt = 0; for (c = P.child; c != 0 && cnt < nexp; c = c->next) { VF_AP(16, c == exp[cnt], "C16 the container holds what RFC 6902 evaluation leaves in it (order and identity)"); cnt++; }
-            if (want_ok == 1 && OPC == 1 && pk == cJSON_Object && dup_ret && pathbuf[0] != 0 && gp_calls == 1 && gp_ret[0] == &P) VF_AP(16, dup_ret->string != 0 && ((unsigned char *)dup_ret->string)[0] == tok[0] && (tok[0] == 0 || dup_ret->string[1] == 0), "C16 the added member's key is the RFC 6901-decoded last token");
+            cnt = 0; for (c = P.child; c != 0 && cnt < nexp; c = c->next) {
+                VF_AP(16, c == xp[cnt], "C16 the container holds what RFC 6902 evaluation leaves in it (order and identity)");
+                if (pk == cJSON_Object && ok) VF_AP(16, c->string != 0 && strcmp(c->string, (char *)ekey[cnt]) == 0, "C16 member keys are the RFC 6901-decoded tokens");
+                cnt++;
+            }
         }
-        /* ---- ledger: nothing leaks, whatever the patch looked like */
+        /* ---- ledger: nothing leaks and nothing is released twice, whatever the patch looked like */
         {
             long want = 0; cnt = 0;
             for (c = P.child; c != 0 && cnt <= KN + 1; c = c->next, cnt++) { want += 1; if (c->string) want += 1; }
